@@ -148,20 +148,21 @@ Definition cx := nat.               (* identity of a context; its cancellation b
 
 Record pstate := mkP {
   p_tokens : list tok; p_pos : nat; p_cur : tok; p_depth : nat; p_ctx : option cx;
+  p_cancel : bool;    (* cancelErr != nil: a poll of the current ParseContext call has seen the context done *)
   p_positions : option (list loc); p_strict : bool; p_dialect : dial }.
-Definition fresh_p : pstate := mkP [] 0 0 0 None None false 0.
+Definition fresh_p : pstate := mkP [] 0 0 0 None false None false 0.
 
-Inductive pfield := FTokens | FPos | FCur | FDepth | FCtx | FPositions | FStrict | FDialect.
-Definition all_pfields := [FTokens; FPos; FCur; FDepth; FCtx; FPositions; FStrict; FDialect].
+Inductive pfield := FTokens | FPos | FCur | FDepth | FCtx | FCancel | FPositions | FStrict | FDialect.
+Definition all_pfields := [FTokens; FPos; FCur; FDepth; FCtx; FCancel; FPositions; FStrict; FDialect].
 Definition pfield_name (f : pfield) : String.string :=
   match f with
   | FTokens => "tokens" | FPos => "currentPos" | FCur => "currentToken" | FDepth => "depth"
-  | FCtx => "ctx" | FPositions => "positions" | FStrict => "strict" | FDialect => "dialect"
+  | FCtx => "ctx" | FCancel => "cancelErr" | FPositions => "positions" | FStrict => "strict" | FDialect => "dialect"
   end%string.
 Definition pfeq (f : pfield) (a b : pstate) : Prop :=
   match f with
   | FTokens => p_tokens a = p_tokens b | FPos => p_pos a = p_pos b | FCur => p_cur a = p_cur b
-  | FDepth => p_depth a = p_depth b | FCtx => p_ctx a = p_ctx b | FPositions => p_positions a = p_positions b
+  | FDepth => p_depth a = p_depth b | FCtx => p_ctx a = p_ctx b | FCancel => p_cancel a = p_cancel b | FPositions => p_positions a = p_positions b
   | FStrict => p_strict a = p_strict b | FDialect => p_dialect a = p_dialect b
   end.
 
@@ -252,24 +253,26 @@ Section Parser.
   (* p.tokens = tokens; p.currentPos = 0; if len(tokens) > 0 { p.currentToken = tokens[0] } *)
   Definition load_tokens (toks : list tok) (s : pstate) : pstate :=
     mkP toks 0 (match toks with t :: _ => t | [] => p_cur s end)
-        (p_depth s) (p_ctx s) (p_positions s) (p_strict s) (p_dialect s).
+        (p_depth s) (p_ctx s) (p_cancel s) (p_positions s) (p_strict s) (p_dialect s).
   Definition set_positions (ps : option (list loc)) (s : pstate) : pstate :=
-    mkP (p_tokens s) (p_pos s) (p_cur s) (p_depth s) (p_ctx s) ps (p_strict s) (p_dialect s).
+    mkP (p_tokens s) (p_pos s) (p_cur s) (p_depth s) (p_ctx s) (p_cancel s) ps (p_strict s) (p_dialect s).
+  (* p.ctx = c together with p.cancelErr = nil: ParseContext sets both when it starts and its deferred cleanup
+     clears both, so cancelErr is nil whenever an entry point returns *)
   Definition set_ctx (c : option cx) (s : pstate) : pstate :=
-    mkP (p_tokens s) (p_pos s) (p_cur s) (p_depth s) c (p_positions s) (p_strict s) (p_dialect s).
+    mkP (p_tokens s) (p_pos s) (p_cur s) (p_depth s) c false (p_positions s) (p_strict s) (p_dialect s).
   (* the cursor after the loop; currentToken follows it while it is inside the token slice (advance()) *)
   Definition set_cursor (p : nat) (s : pstate) : pstate :=
     mkP (p_tokens s) p
         (if p <? length (p_tokens s) then tclass (p_tokens s) p
          else match rev (p_tokens s) with t :: _ => t | [] => p_cur s end)
-        (p_depth s) (p_ctx s) (p_positions s) (p_strict s) (p_dialect s).
+        (p_depth s) (p_ctx s) (p_cancel s) (p_positions s) (p_strict s) (p_dialect s).
   Definition drop_positions (s : pstate) : pstate :=
     if d_stale_positions D then s else set_positions None s.
 
   Definition apply_opt (s : pstate) (o : popt) : pstate :=
     match o with
-    | WithStrict => mkP (p_tokens s) (p_pos s) (p_cur s) (p_depth s) (p_ctx s) (p_positions s) true (p_dialect s)
-    | WithDialect d => mkP (p_tokens s) (p_pos s) (p_cur s) (p_depth s) (p_ctx s) (p_positions s) (p_strict s) d
+    | WithStrict => mkP (p_tokens s) (p_pos s) (p_cur s) (p_depth s) (p_ctx s) (p_cancel s) (p_positions s) true (p_dialect s)
+    | WithDialect d => mkP (p_tokens s) (p_pos s) (p_cur s) (p_depth s) (p_ctx s) (p_cancel s) (p_positions s) (p_strict s) d
     end.
 
   Definition fuel_of (toks : list tok) := S (length toks).
@@ -311,11 +314,11 @@ Section Parser.
                        (fuel_of toks) 0 [] [] None))
     | OApply => (fold_left apply_opt (i_opts x) s, RNone)
     | OReset | OPutGet =>
-        (mkP [] 0 0 0 None None false (if d_reset_keeps_dialect D then p_dialect s else 0), RNone)
+        (mkP [] 0 0 0 None false None false (if d_reset_keeps_dialect D then p_dialect s else 0), RNone)
     | ORelease =>
         if d_release_keeps_cfg D
-        then (mkP [] 0 0 0 None (p_positions s) (p_strict s) (p_dialect s), RNone)
-        else (mkP [] 0 0 0 None None false 0, RNone)
+        then (mkP [] 0 0 0 None false (p_positions s) (p_strict s) (p_dialect s), RNone)
+        else (mkP [] 0 0 0 None false None false 0, RNone)
     end.
 
   (* ---- the footprint table of the operations above (hand-written; ReuseP proves psem respects it, Inst_C08
@@ -339,6 +342,8 @@ Section Parser.
                                                      empty (cursor bound checked first) — see cur_guarded in ReuseP *)
     | FDepth => is_entry o
     | FCtx => match o with OParse | OParsePos | ORecover | ORecoverPos => true | _ => false end
+    | FCancel => match o with OParse | OParsePos | ORecover | ORecoverPos => true | _ => false end
+                                                  (* pollContext consults cancelErr first; ParseContext assigns it first *)
     | FPositions => is_entry o && negb (sets_positions o) && d_stale_positions D
     | FStrict => strict_aware o || (match o with OApply => true | _ => false end)
     | FDialect => is_entry o || (match o with OApply => true | _ => false end)
@@ -351,6 +356,7 @@ Section Parser.
         | FTokens | FPos | FCur => Any
         | FDepth => Keep
         | FCtx => match o with OParseCtx => KZ | _ => Keep end       (* nil again, or untouched when the call returned early *)
+        | FCancel => match o with OParseCtx => KZ | _ => Keep end    (* cleared with ctx *)
         | FPositions => if sets_positions o then Any else if d_stale_positions D then Keep else KZ
         | FStrict | FDialect => Keep
         end
@@ -592,6 +598,12 @@ Arguments fx_compat {field op}. Arguments fx_bad_cells {field op}.
    under the configured flag, which every operation that changes them sets (reflect oracle after every Put). *)
 Definition pguard_r (o : pop) (f : pfield) : bool :=
   match f with FCur => match o with OParse | OParsePos | OParseCtx | ORecover | ORecoverPos => true | _ => false end | _ => false end.
+(* Parser, cancelErr: its only non-nil stores (pollContext, advance) are under `p.ctx != nil`, and ctx is nil in every
+   entry point except ParseContext (FCtx row above), which assigns cancelErr = nil before its first poll and again in
+   its deferred cleanup together with ctx; the flow-insensitive store classes of the translator ("may") cannot see the
+   guard.  The per-field dirtiness correspondence observes cancelErr == nil after every operation of every history. *)
+Definition pguard_w (o : pop) (f : pfield) : bool :=
+  match f with FCancel => match o with OParse | OParsePos | OParseCtx | ORecover | ORecoverPos => true | _ => false end | _ => false end.
 Definition tguard_r (o : top) (f : tfield) : bool := match f with TLineStarts => true | _ => false end.
 Definition tguard_w (o : top) (f : tfield) : bool :=
   match o, f with OTPutGet, (TKeywords | TDialect | TConfigured) => true | _, _ => false end.
